@@ -355,6 +355,8 @@ func (s *socket) RecvMsg() (*protocol.Message, error) {
 }
 
 func (s *socket) AddPipe(pp protocol.Pipe) error {
+	s.Lock()
+	defer s.Unlock()
 	p := &pipe{
 		p:      pp,
 		s:      s,
@@ -362,8 +364,6 @@ func (s *socket) AddPipe(pp protocol.Pipe) error {
 		closeQ: make(chan struct{}),
 	}
 	pp.SetPrivate(p)
-	s.Lock()
-	defer s.Unlock()
 	if s.closed {
 		return protocol.ErrClosed
 	}
